@@ -20,6 +20,7 @@ RULE = ("Exhaustive sweep over all unordered element pairs of the covalent-radiu
         "block - pair (i<j) bonded iff min distance < r_i + r_j (+0.45 if either is a non-metal); result rows exactly "
         "those pairs, each once, i<j; same set after shift+wrap; renamed set after permutation. Non-trivial = a pair "
         "within 0.2% of its cutoff or bonded only through a non-identity image; distinct by hash.")
+RULE += (" Since rounds 9-10: The edit history has a third step: one atom deleted and one atom of another existing type appended (atom and type counts unchanged), detection again on the same object.")
 ASSUMPTIONS = ["the radius table is data taken from the module under test; the non-metal list is pinned in the harness (H D B C N O F P S Cl Se Br I Si) so that a change of the list counts as a change of behaviour",
                "distances within 1e-9 relative of the cutoff are not generated"]
 
